@@ -125,7 +125,7 @@ def generate(seed, prop):
         f = CV.gen_grid(grid)
         nmin, nmax = 40, 110
         n_az = 1 if kind == "traditional" else rng.choice([1, 2])
-        azimuths = CV.draw_azimuths(rng, n_az)
+        azimuths = CV.draw_azimuths(rng, n_az, ends=prop in ("C11", "C05", "C06", "C08"))
     curves = CV.draw_curve_sets(rng, len(f), n_az, equal_counts=equal, nmin=nmin, nmax=nmax)
     if nmin >= 40:
         for cs in curves:                      # resonances scattered around the centre like a (log)normal sample
@@ -158,7 +158,7 @@ def generate(seed, prop):
         bimodal = float(f[nf // 2])
     if kind == "diffuse":
         curves = [[curves[0][0]]]
-    azimuths = CV.draw_azimuths(rng, n_az)
+    azimuths = CV.draw_azimuths(rng, n_az, ends=prop in ("C11", "C05", "C06", "C08"))
     world = {"kind": kind, "grid": grid, "azimuths": azimuths, "curves": curves,
              # (plots are kept at ordinary magnitudes: the contour plot's colour-bar code builds one tick per
              #  5 amplitude units, which is a resource question, not a property of C20)
@@ -179,6 +179,16 @@ def generate(seed, prop):
         for _ in range(rng.randint(1, 3)):
             a_ = rng.randrange(len(curves))
             zs.append([a_, rng.randrange(len(curves[a_])), rng.randrange(grid["n"])])
+        world["zeros"] = zs
+    if prop == "C06" and rng.random() < 0.12:
+        # an exactly-zero sample (a spectral hole; legal) in a few windows AT the frequency where the mean curve peaks:
+        # under the lognormal assumption the mean curve is 0 there as long as such a window is accepted
+        zs = []
+        for a_ in range(len(curves)):
+            amps_ = np.array([CV.gen_curve(f, sp_) for sp_ in curves[a_]])
+            ipk = int(np.argmax(np.exp(np.mean(np.log(np.maximum(amps_, 1e-300)), axis=0))))
+            for j_ in rng.sample(range(len(curves[a_])), min(len(curves[a_]), rng.randint(1, 2))):
+                zs.append([a_, j_, min(max(ipk + rng.choice([0, 0, 0, -1, 1]), 0), len(f) - 1)])
         world["zeros"] = zs
     if prop == "C12" and rng.random() < 0.15:
         world["bare"] = True          # results built directly from arrays, without the meta entries process() would add
@@ -259,6 +269,8 @@ def generate(seed, prop):
             o = TD.draw_td_op(rng, name, world)
         else:
             o = draw_op(rng, name, f, kind, curves, azimuths, fault_rate)
+        if prop == "C20" and name == "set_masks" and rng.random() < 0.35:
+            o["how"] = "assign_one"
         if bimodal is not None and "range" in o and name in ("fdwra", "update_peaks", "query"):
             o["range"] = rng.choice([[None, bimodal], [bimodal, None], [None, None], [float(f[1]), bimodal], o["range"]])
             if name == "fdwra":
@@ -382,7 +394,8 @@ def draw_op(rng, name, f, kind, curves, azimuths, fault_rate=0.0):
                 "r_alias": rng.random() < 0.35, "r_edit": draw_range(rng, f) if rng.random() < 0.6 else None,
                 # fault injection: the k-th inner peak search of the update fails (an allocation failure, say); the caller
                 # then simply issues the same call again
-                "fault": {"kind": "raise_in_search", "at": rng.randrange(0, 14)} if rng.random() < 0.07 else None}
+                "fault": {"kind": "raise_in_search", "at": rng.randrange(0, 14),
+                          "how": rng.choice(["error", "error", "interrupt"])} if rng.random() < 0.07 else None}
     if name == "fdwra":
         return {"op": name, "n": rng.choice([0.5, 1.0, 1.5, 2.0, 2, 2.5, 3.0, 3, 1]),
                 "max_iterations": rng.choice([1, 1, 2, 3, 5, 50, 50]),
@@ -431,7 +444,10 @@ def draw_op(rng, name, f, kind, curves, azimuths, fault_rate=0.0):
         return {"op": name, "az": rng.randrange(len(curves)), "range": draw_range(rng, f),
                 "rtype": rng.choice(["tuple", "list"]), "kwargs": draw_kwargs(rng)}
     if name == "query":
-        return {"op": name, "range": draw_range(rng, f), "kwargs": draw_kwargs(rng), "dist": rng.choice(DISTS)}
+        return {"op": name, "range": draw_range(rng, f), "kwargs": draw_kwargs(rng), "dist": rng.choice(DISTS),
+                # the caller works on what the accessors return - normalises the mean curve, converts peak frequencies to
+                # periods - in place: what is returned is the caller's
+                "scribble": rng.random() < 0.5}
     if name == "write_read":
         op = {"op": name, "path": "/simfs/out/" + rng.choice(["a.csv", "b.csv", "res.hv"]),
               "dmc": rng.choice(DISTS), "dfn": rng.choice(DISTS)}
@@ -612,12 +628,16 @@ class InjectedSearchFailure(MemoryError):
     pass
 
 
+class InjectedInterrupt(KeyboardInterrupt):
+    """The user interrupts a long update (Ctrl-C in an interactive session) and issues the call again: not an Exception subclass."""
+
+
 class _SearchFault:
     """While installed, the k-th call of scipy's find_peaks made by hvsrpy.hvsr_curve fails (counted across the objects of the run)."""
 
-    def __init__(self, at, ctx):
+    def __init__(self, at, ctx, how="error"):
         import hvsrpy.hvsr_curve as HC
-        self.HC, self.at, self.n, self.fired, self.ctx = HC, at, 0, False, ctx
+        self.HC, self.at, self.n, self.fired, self.ctx, self.how = HC, at, 0, False, ctx, how
 
     def __enter__(self):
         self.orig = self.HC.find_peaks
@@ -626,6 +646,9 @@ class _SearchFault:
             self.n += 1
             if self.n - 1 == self.at and not self.fired:
                 self.fired = True
+                if self.how == "interrupt":
+                    self.ctx.fault("interrupt_in_peak_search")
+                    raise InjectedInterrupt("injected interrupt in the peak search")
                 self.ctx.fault("raise_in_peak_search")
                 raise InjectedSearchFailure("injected failure in the peak search")
             return self.orig(*a, **k)
@@ -791,7 +814,7 @@ def apply_op(ctx, st, op, prop):
             ctx.probe("caller_reuses_kwargs_dict")
         fault = op.get("fault") if prop in ("C08", "C05", "C11", "C06") else None
         for attempt in ((fault, None) if fault else (None,)):
-            inj = _SearchFault(attempt["at"], ctx) if attempt else None
+            inj = _SearchFault(attempt["at"], ctx, attempt.get("how", "error")) if attempt else None
             for key, obj in st.objs.items():
                 targets = obj if key == "curves" else [obj]
                 for t in targets:
@@ -804,7 +827,7 @@ def apply_op(ctx, st, op, prop):
                         finally:
                             if inj:
                                 inj.__exit__()
-                    except InjectedSearchFailure:
+                    except (InjectedSearchFailure, InjectedInterrupt):
                         info["exc"] = "InjectedSearchFailure"      # the caller repeats the call below, faults have stopped
         if op.get("r_alias") and isinstance(r, list) and op.get("r_edit") is not None:
             r[:] = list(op["r_edit"])                  # the caller's list now holds the NEXT range; none has been applied yet
@@ -858,6 +881,12 @@ def apply_op(ctx, st, op, prop):
                         continue
                 h.valid_window_boolean_mask[j] = op["value"]
                 h.valid_peak_boolean_mask[j] = op["value"]
+            if op.get("how") == "assign_one":
+                # a hand rejection written as: mask = ...; hvsr.valid_window_boolean_mask = mask; hvsr.valid_peak_boolean_mask = mask
+                m_ = np.asarray(h.valid_window_boolean_mask, bool) & np.asarray(h.valid_peak_boolean_mask, bool)
+                h.valid_window_boolean_mask = m_
+                h.valid_peak_boolean_mask = m_
+                ctx.probe("one_array_assigned_to_both_masks")
         st.range_changed = False
         ctx.state_changes += 1
     elif name == "clone":
@@ -968,9 +997,14 @@ def apply_op(ctx, st, op, prop):
                                      lambda: t.nth_std_curve(1.0, op["dist"]), lambda: t.peak_frequencies,
                                      lambda: t.mean_curve_peak_by_azimuth(op["dist"])):
                             try:
-                                call()
+                                got = call()
                             except Exception:              # noqa  (many accessors do not exist on every kind)
-                                pass
+                                continue
+                            if op.get("scribble"):
+                                for g_ in (got if isinstance(got, (tuple, list)) else [got]):
+                                    if isinstance(g_, np.ndarray) and g_.dtype.kind == "f" and g_.flags.writeable and g_.size:
+                                        g_ *= 0.5
+                                        ctx.probe("caller_edits_returned_array")
         st.range_changed = False
     elif name == "write_read":
         from .hvsrobj_io import op_write_read
@@ -1042,6 +1076,15 @@ def oracle_c08(ctx, st, op, info):
         ctx.check(ok, name or "peak_ok", lambda: f"{label}: {detail}",
                   key={"where": label.split("[")[0], "range_hi_none": R[1] is None})
 
+    # the curves the objects hold are the curves they were given (nothing the caller did to RETURNED values reaches them)
+    held = [(f"curve[{j}]", c.amplitude, st.amps[0][j]) for j, c in enumerate(st.objs.get("curves", []))]
+    if "diff" in st.objs:
+        held.append(("diffuse", st.objs["diff"].amplitude, st.amps[0][0]))
+    held += [(label, h.amplitude, amp) for label, h, amp in trads_of(st)]
+    for label, have, given in held:
+        ctx.check(np.array_equal(np.asarray(have), np.asarray(given)), "curve_changed",
+                  lambda: f"{label}: the curve held by the object is no longer the curve it was built from (after {op['op']}); "
+                          f"reported peaks refer to a curve that is gone", key={"where": label.split("[")[0], "after": op["op"]})
     # single curves and the diffuse-field curve
     for j, c in enumerate(st.objs.get("curves", [])):
         judge(f"curve[{j}]", st.amps[0][j], c.peak_frequency, c.peak_amplitude)
